@@ -72,8 +72,8 @@ def run(chk):
                 bad("no clamp", f"stages {names}: no clamp before the cast", "values beyond the storage range wrap around (int8) or become NaN/inf (float8)")
             continue
         lo, hi = rest[0][1], rest[0][2]
-        lo_ok = quant.is_storage_bound(repo, mi, lo, "min", f"{qt}.dtype")
-        hi_ok = quant.is_storage_bound(repo, mi, hi, "max", f"{qt}.dtype")
+        lo_ok = quant.is_storage_bound(repo, mi, lo, "min", f"{qt}.dtype", fp if fp_known else None)
+        hi_ok = quant.is_storage_bound(repo, mi, hi, "max", f"{qt}.dtype", fp if fp_known else None)
         if not (lo_ok and hi_ok):
             bad("clamp bounds", f"clamp bounds are (`{U(lo) if lo is not None else None}`, `{U(hi) if hi is not None else None}`), expected the min/max of the storage range of {qt}.dtype",
                 "elements beyond the grid: qint8 values below -127.5*scale do not reach the end point -128 (or saturate at a bound of another dtype)")
